@@ -294,12 +294,18 @@ private theorem answers_inv (t : Table) (uses : List Use) :
         · exact hp x hx
         · rw [hx]; exact hp t' (List.mem_of_getElem? hv)
 
-/-- **A router has no memory.**  Take the router a construction yields and use it any way at
+/-- Transcription lemma (definitional): `Proc.answers` is WRITTEN so that a call reads the value it is
+made on and writes nothing (`Proc.answers p (.call v path :: us) = … ++ Proc.answers p us` by `rfl`)
+and a clone appends a copy, so the invariant "every live value is the built table" cannot break — this
+unfolds the model and carries no assurance of its own.  That `Routes::call`, `Clone` and the
+per-connection stack of `transport::Server` really keep no state is established by the correspondence
+run (`seq` cases: one router used 1–50 times, through clones made before and after use, on one or
+several connections, each request judged separately).
+**A router has no memory** (as modelled).  Take the router a construction yields and use it any way at
 all — any number of calls on the value itself, on clones of it, on clones of clones (what every
 accepted connection of a `transport::Server` gets), in any interleaving: every request of the
 history is answered exactly as if it were the only request the freshly built router ever saw.
-(Invariant over the history, no bound on its length.  That `Routes::call`, `Clone` and the
-per-connection stack really keep no state is what the `seq` cases tie to the code.) -/
+(Invariant over the history, no bound on its length.) -/
 theorem C10_history_has_no_memory (t : Table) (uses : List Use) :
     ∀ pa ∈ Proc.answers ⟨[t]⟩ uses, pa.2 = t.serve pa.1 :=
   answers_inv t uses ⟨[t]⟩ (by intro x hx; simpa using hx)
@@ -323,27 +329,76 @@ theorem C10_every_request_of_a_history (start : Start) (ops : List Op)
   rw [C10_history_has_no_memory _ uses pa h]
   exact C10_construction_dispatch start ops hs ho pa.1
 
-/-- **Reconfigured after use.**  A router that has already answered requests (itself and through
-clones) and is then given more services, any number of times: every request is answered by the
-table as it stood in its own round — the services registered up to then, no trace of what was
-asked before. -/
-theorem C10_reconfigured_after_use (rounds : List (List Use × Svc)) (last : List Use) :
-    ∀ (t : Table), ∀ pa ∈ Proc.rounds t rounds last, ∃ k, k ≤ rounds.length ∧
-      pa.2 = ((rounds.take k).foldl (fun t r => t.addService r.2) t).serve pa.1 := by
-  induction rounds with
-  | nil =>
-    intro t pa h
-    exact ⟨0, Nat.le_refl _, by simpa using C10_history_has_no_memory t last pa h⟩
-  | cons r rest ih =>
-    intro t pa h
-    obtain ⟨us, s⟩ := r
-    simp only [Proc.rounds, List.mem_append] at h
-    rcases h with h | h
-    · exact ⟨0, Nat.zero_le _, by simpa using C10_history_has_no_memory t us pa h⟩
-    · obtain ⟨k, hk, hpa⟩ := ih (t.addService s) pa h
-      exact ⟨k + 1, by simpa using hk, by simpa [List.take_succ_cons] using hpa⟩
+/-- The table of round `k` of a reconfiguration history: the built table after the first `k`
+`add_service` calls of the history. -/
+def tableAt (t : Table) (rounds : List (List Use × Svc)) (k : Nat) : Table :=
+  (rounds.take k).foldl (fun t r => t.addService r.2) t
 
-/-- A clone answers like the value it was cloned from, before and after either was used. -/
+/-- The uses made in round `k` (round `rounds.length` is the last one, after the last `add_service`). -/
+def usesAt (rounds : List (List Use × Svc)) (last : List Use) (k : Nat) : List Use :=
+  (rounds.map (·.1) ++ [last]).getD k []
+
+/-- **Reconfigured after use.**  A router that has already answered requests (itself and through
+clones) and is then given more services, any number of times: the answers of the whole history are,
+round by round and in order, exactly the answers a process that starts with the table of THAT round
+(the services registered up to then — `tableAt … k`, no earlier and no later table) gives to the
+uses of that round alone; and within a round every request is answered by that round's table as if it
+were the only request it ever saw.  (An EQUATION on the whole answer list, indexed by round: a process
+that applies `add_service` late, early or never does not satisfy it — `C10_reconfigured_stale_process_fails`.
+The second conjunct is the transcription fact `C10_history_has_no_memory` applied per round.) -/
+theorem C10_reconfigured_after_use (rounds : List (List Use × Svc)) (last : List Use) (t : Table) :
+    Proc.rounds t rounds last =
+      ((List.range (rounds.length + 1)).flatMap fun k =>
+        Proc.answers ⟨[tableAt t rounds k]⟩ (usesAt rounds last k)) ∧
+    ∀ k, ∀ pa ∈ Proc.answers ⟨[tableAt t rounds k]⟩ (usesAt rounds last k),
+      pa.2 = (tableAt t rounds k).serve pa.1 := by
+  refine ⟨?_, fun k pa h => C10_history_has_no_memory _ _ pa h⟩
+  induction rounds generalizing t with
+  | nil => simp [Proc.rounds, tableAt, usesAt]
+  | cons r rest ih =>
+    obtain ⟨us, s⟩ := r
+    rw [List.range_succ_eq_map, List.flatMap_cons, List.flatMap_map]
+    simp only [Proc.rounds, List.length_cons]
+    rw [ih (t.addService s)]
+    congr 1
+
+/-- The membership form (what this theorem stated before review round 4, kept as a corollary —
+it is WEAKER than `C10_reconfigured_after_use`: it forgets which round an answer belongs to, so a
+process that never applies `add_service` satisfies it too): every answer of the history is the
+answer of the table of SOME round. -/
+theorem C10_reconfigured_after_use_some_round_partial (rounds : List (List Use × Svc)) (last : List Use)
+    (t : Table) : ∀ pa ∈ Proc.rounds t rounds last, ∃ k, k ≤ rounds.length ∧
+      pa.2 = ((rounds.take k).foldl (fun t r => t.addService r.2) t).serve pa.1 := by
+  intro pa h
+  rw [(C10_reconfigured_after_use rounds last t).1, List.mem_flatMap] at h
+  obtain ⟨k, hk, hpa⟩ := h
+  exact ⟨k, by have := List.mem_range.mp hk; omega,
+    (C10_reconfigured_after_use rounds last t).2 k pa hpa⟩
+
+/-- NOT the code: a process that keeps answering from the table it was built with — the
+`add_service` between the rounds is lost (what a `Routes::add_service` that rebuilt a copy and
+dropped it would do). -/
+def roundsStale (t : Table) : List (List Use × Svc) → List Use → List (Bytes × Answer)
+  | [], last => Proc.answers ⟨[t]⟩ last
+  | (us, _) :: rest, last => Proc.answers ⟨[t]⟩ us ++ roundsStale t rest last
+
+/-- The stale process does NOT satisfy the equation of `C10_reconfigured_after_use` (so that
+statement does tell the two apart). Witness: `A` registered, a round without requests, `S` added,
+then `/S/M` is called: the stale process answers UNIMPLEMENTED from the fallback. -/
+theorem C10_reconfigured_stale_process_fails :
+    ¬ ∀ (rounds : List (List Use × Svc)) (last : List Use) (t : Table),
+      roundsStale t rounds last =
+        ((List.range (rounds.length + 1)).flatMap fun k =>
+          Proc.answers ⟨[tableAt t rounds k]⟩ (usesAt rounds last k)) := by
+  intro h
+  have := h [([], ⟨[83], [[77]]⟩)] [.call 0 [47, 83, 47, 77]] ⟨[⟨[65], [[77]]⟩], [], .unimplemented⟩
+  revert this
+  decide
+
+/-- Transcription lemma (definitional): an instance of `C10_history_has_no_memory`, which holds because
+the model's `call` writes no value and `clone` copies one; that a real clone answers like its original
+is established by the `seq` cases (clones made before and after use, clone of a dropped original).
+A clone answers like the value it was cloned from, before and after either was used. -/
 theorem C10_clone_answers_alike (t : Table) (pre post : List Use) (path : Bytes) :
     ∀ pa ∈ Proc.answers ⟨[t]⟩ (pre ++ [.clone 0] ++ post ++ [.call 0 path, .call 1 path]),
       pa.1 = path → pa.2 = t.serve path := by
